@@ -456,6 +456,16 @@ def ptprocess_scenarios(ctx):
             pool = servers if any(a == "open" for a, _ in sc) else runners
             e = pool[k % len(pool)]
             scen.append({"id": "ptlife%d" % k, "env": e["env"], "steps": [{"a": a, "s": s} for a, s in sc], "group": "life"}); k += 1
+    # every announced listener is served (several transports in one process): clients answer a SOCKS greeting on each of them,
+    # a bridge holds a graceful shutdown open for a connection to ANY of its listeners
+    multi_c = [x for x in runners if x["env"]["role"] == "client" and len(x["env"]["methods"]) > 1]
+    multi_s = [x for x in runners if x["env"]["role"] == "server" and x["env"]["methods"] == ["obfs4", "bogus", "obfs3"]]
+    for rep in range(2 if quick else 8):
+        e = multi_c[(k + rep) % len(multi_c)]
+        scen.append({"id": "ptgreet%d" % k, "env": e["env"], "steps": [{"a": "greet", "s": ""}, {"a": "ask", "s": "TERM"}], "group": "life"}); k += 1
+        e = multi_s[(k + rep) % len(multi_s)]
+        scen.append({"id": "ptlisten%d" % k, "env": e["env"], "group": "life",
+                     "steps": [{"a": "open", "s": "", "i": rep % 2}, {"a": "ask", "s": "INT"}, {"a": "close", "s": ""}]}); k += 1
     # a recorded deviation, not a verdict: a flood of connections under a small descriptor limit (group "note")
     for rep in range(1 if quick else 3):
         e = [x for x in runners if x["env"]["role"] == ("server", "client", "server")[rep]][rep]
